@@ -98,6 +98,18 @@ def run_case(kind, p):
     img = grm.do_transformation(exact, cen[np.newaxis, :])[0]
     if np.abs(img - cen).max() > 1e-6 * max(1.0, np.abs(cen).max()):
         msgs.append(f"find_center result {cen.tolist()} is mapped to {img.tolist()}")
+    # the same with the fit's own centre argument and weights: the exact relation is fitted with any positive weights, and
+    # the centre found for that fit is the fixed point of the map (in coordinates relative to the centre argument)
+    cc = np.zeros(2) if c is None else np.asarray(c, dtype=float)
+    fitw = grm.get_transformation(ref, ref @ np.asarray(p["L"]).T + np.asarray(p["t"]), center=c, weighs=w)
+    cen_w = grm.find_center(fitw) + cc
+    img_w = grm.do_transformation(fitw, cen_w[np.newaxis, :], center=c)[0]
+    true_img = np.asarray(p["L"]) @ cen_w + np.asarray(p["t"])
+    tol = 1e-6 * max(1.0, np.abs(cen_w).max(), np.abs(cc).max())
+    if np.abs(img_w - cen_w).max() > tol or np.abs(true_img - cen_w).max() > tol * 10:
+        msgs.append(f"find_center of the fit with centre {None if c is None else cc.tolist()} and weights "
+                    f"{'yes' if w is not None else 'no'} gives {cen_w.tolist()}, which the fitted map sends to {img_w.tolist()} "
+                    f"and the true map to {true_img.tolist()}")
     return msgs
 
 
